@@ -85,12 +85,15 @@ RECURSIVE Pow10(_)
 Pow10(n) == IF n = 0 THEN 1 ELSE 10 * Pow10(n - 1)
 DotPos(cs) == IF \E k \in 1..Len(cs) : cs[k] = 46 THEN CHOOSE k \in 1..Len(cs) : cs[k] = 46 /\ \A j \in 1..(k - 1) : cs[j] # 46 ELSE 0
 
-\* "12" -> <<"i",12>>, "1.5" -> <<"q",3,2>>, anything else -> Err  (unsigned decimal notation only: that is what is generated)
-ParseNum(cs) == IF AllDigits(cs) THEN IntV(DigitsVal(cs, 0))
-                ELSE LET p == DotPos(cs) IN
-                     IF p > 1 /\ p < Len(cs) /\ AllDigits(SubSeq(cs, 1, p - 1)) /\ AllDigits(SubSeq(cs, p + 1, Len(cs)))
-                     THEN Canon(DigitsVal(SubSeq(cs, 1, p - 1) \o SubSeq(cs, p + 1, Len(cs)), 0), Pow10(Len(cs) - p))
-                     ELSE Err
+\* "12" -> <<"i",12>>, "1.5" -> <<"q",3,2>>, "-2" -> <<"i",-2>>, anything else -> Err  (plain decimal notation only: that is what is generated)
+ParseUnsigned(cs) == IF AllDigits(cs) THEN IntV(DigitsVal(cs, 0))
+                     ELSE LET p == DotPos(cs) IN
+                          IF p > 1 /\ p < Len(cs) /\ AllDigits(SubSeq(cs, 1, p - 1)) /\ AllDigits(SubSeq(cs, p + 1, Len(cs)))
+                          THEN Canon(DigitsVal(SubSeq(cs, 1, p - 1) \o SubSeq(cs, p + 1, Len(cs)), 0), Pow10(Len(cs) - p))
+                          ELSE Err
+ParseNum(cs) == IF Len(cs) >= 2 /\ cs[1] = 45
+                THEN LET u == ParseUnsigned(Tail(cs)) IN IF IsErr(u) THEN Err ELSE NSub(IntV(0), u)
+                ELSE ParseUnsigned(cs)
 
 \* an aggregate's numeric view of its argument: numbers stay, strings are parsed
 ToNum(v) == IF IsNum(v) THEN v ELSE IF v[1] = "s" THEN ParseNum(v[2]) ELSE Err
